@@ -1,8 +1,9 @@
 ---- MODULE Uni_pkg ----
-(* Scenario family "pkg" (C29): five mature base coins of 100 000 sat (base tip 110; coin 4 is locked by P2WSH(OP_DROP OP_TRUE), *)
+(* Scenario family "pkg" (C29): six mature base coins  of 100 000 sat (base tip 110; coin 4 is locked by P2WSH(OP_DROP OP_TRUE), *)
 (* its spender has a same-txid-different-witness twin), bare OP_TRUE outputs. A zero-fee parent with well-paying children (CPFP    *)
 (* through the package feerate), a child of two parents, a grandchild, a conflicting pair, a 1-parent-1-child package that         *)
-(* replaces a pool transaction (sufficient / insufficient fees), a child that pays too little, a child whose script fails.         *)
+(* replaces a pool transaction (sufficient / insufficient fees), a child that pays too little, a child whose script fails,          *)
+(* a package parent that replaces a pool ancestor of an earlier package parent (evicting it after its result was recorded).       *)
 EXTENDS Integers, Sequences, UniCommon
 F == [kind |-> "final", v |-> 0]
 NoLock == [kind |-> "none", v |-> 0]
@@ -27,15 +28,19 @@ TxUDef == <<
   Tx(<<In(3,1)>>, <<Out(98990)>>),                         \* 14: child of C paying 10: below the minimum relay fee
   Tx(<<In(0,5)>>, <<[v |-> 50000, cls |-> "fail"], Out(49000)>>),   \* 15: has an output that cannot be spent
   Tx(<<In(15,1)>>, <<Out(49000)>>),                        \* 16: tries to
-  Tx(<<In(3,1)>>, <<Out(98000)>>)                          \* 17: child of C paying 1000 (accepted on its own; expires with an old C)
+  Tx(<<In(3,1)>>, <<Out(98000)>>),                         \* 17: child of C paying 1000 (accepted on its own; expires with an old C)
+  Tx(<<In(0,6)>>, <<Out(50000), Out(49000)>>),             \* 18: A2, a pool transaction outside the packages, fee 1000
+  Tx(<<In(18,1)>>, <<Out(49000)>>),                        \* 19: P1, package parent that descends from A2, fee 1000
+  Tx(<<In(0,6)>>, <<Out(95000)>>),                         \* 20: P2, package parent that replaces A2 (and with it P1), fee 5000
+  Tx(<<In(19,1), In(20,1)>>, <<Out(140000)>>)              \* 21: child of P1 and P2: its parent P1 is gone by the time it is evaluated
 >>
 BaseDef == << [v |-> 100000, h |-> 1, cls |-> "key"], [v |-> 100000, h |-> 2, cls |-> "key"], [v |-> 100000, h |-> 3, cls |-> "key"],
-              [v |-> 100000, h |-> 4, cls |-> "wdrop"], [v |-> 100000, h |-> 5, cls |-> "key"] >>
+              [v |-> 100000, h |-> 4, cls |-> "wdrop"], [v |-> 100000, h |-> 5, cls |-> "key"], [v |-> 100000, h |-> 6, cls |-> "key"] >>
 H0Def == 110
 BaseDtDef == 1
-AllTx == 1..17
-SubQ == {3, 7, 12}
-SubT == {3, 7, 11, 12, 15, 2}
+AllTx == 1..21
+SubQ == {3, 7, 12, 18, 19}
+SubT == {3, 7, 11, 12, 15, 2, 18, 19}
 NoTx == {}
 NoLists == {}
 NoTicks == {}
@@ -44,7 +49,7 @@ TicksDef == {1209601}
 NoReorgs == {}
 NoPrio == {}
 ListsT == { <<1>> }
-PkgsQ == { <<1, 2>>, <<1, 3, 4>>, <<1, 2, 5>>, <<2, 1>>, <<1, 6>>, <<3, 4>>, <<8, 9>>, <<8, 10>>, <<11, 13>>, <<3, 14>>, <<15, 16>>, <<1, 1>>, <<3, 17>> }
+PkgsQ == { <<1, 2>>, <<1, 3, 4>>, <<1, 2, 5>>, <<2, 1>>, <<1, 6>>, <<3, 4>>, <<8, 9>>, <<8, 10>>, <<11, 13>>, <<3, 14>>, <<15, 16>>, <<1, 1>>, <<3, 17>>, <<19, 20, 21>> }
 PkgsT == PkgsQ \cup { <<1>>, <<3>>, <<12, 13>>, <<11, 12>>, <<6, 2>>, <<1, 3, 4, 2>>, <<3, 1, 4>>, <<5>> }
 ExtQ == [ExtNone EXCEPT !.pkgs = PkgsQ, !.maxpkg = 1]
 \* C26: the packages that conflict with the pool
